@@ -399,6 +399,13 @@ func GenC13(seed uint64, run int) *Trace {
 		r2 := r.Intn(len(spec.Blocks))
 		spec.Blocks[r2], spec.Blocks[len(spec.Blocks)-1] = spec.Blocks[len(spec.Blocks)-1], spec.Blocks[r2]
 	}
+	if r.Chance(1, 25) {
+		// a CID around and beyond the default index CID limit (2048 bytes): limits that belong to indexing
+		// must not leak into inspection or scanning
+		big := BlkSpec{Kind: "id", Seed: 5, Size: Pick(r, []int{2043, 2044, 2050, 3200})}
+		at := r.Intn(len(spec.Blocks) + 1)
+		spec.Blocks = append(spec.Blocks[:at:at], append([]BlkSpec{big}, spec.Blocks[at:]...)...)
+	}
 	return &Trace{Prop: "C13", Engine: "medium", Seed: seed, Run: run, Medium: &MediumSpec{Image: spec, All: true, Del: sim.Delivery{ErrAt: -1}}, Extra: map[string]any{}}
 }
 
